@@ -44,7 +44,7 @@ theorem nodup_tc (h : RootAt f X tc Y) : (handles tc).Nodup :=
 
 theorem handle_not_mem_kids (h : RootAt f X tc Y) : tc.handle ∉ handlesList tc.kids := by
   have := h.nodup_tc
-  rw [handles_eq, List.nodup_cons] at this
+  rw [ff_handles_eq, List.nodup_cons] at this
   exact this.1
 
 theorem nodup_rest (h : RootAt f X tc Y) : (handlesList (X ++ Y)).Nodup := by
